@@ -22,6 +22,7 @@ GUpgrade == \E o \in R(AllOffers), g \in W(<<"", "", "same", "good", "glob", "ev
               /\ h' = Append(h, [In0 EXCEPT !.op = "upgrade", !.offers = o, !.origin = g]) /\ Upgrade(o, g) /\ UNCHANGED kind
 GHello   == h' = Append(h, [In0 EXCEPT !.op = "hello"]) /\ Hello /\ UNCHANGED kind
 GPub     == h' = Append(h, [In0 EXCEPT !.op = "pub"]) /\ Pub /\ UNCHANGED kind
+GSGet    == h' = Append(h, [In0 EXCEPT !.op = "sget"]) /\ SGet /\ UNCHANGED kind
 \* (the client announces at least 2 KiB, so that WELCOME fits)
 GRsHs    == \E magicOK \in W(<<TRUE, TRUE, TRUE, TRUE, TRUE, FALSE>>), ln \in W(<<2, 3, 15>>), sn \in W(<<1, 1, 2, 2, 3, 3, 0, 4>>),
                rz \in W(<<TRUE, TRUE, TRUE, TRUE, FALSE>>) :
@@ -41,7 +42,7 @@ GenNext ==
      ELSE IF sphase = "new" THEN \E who \in W(<<"raw", "raw", "client", "client">>) :
                                    IF who = "client" THEN GClient ELSE IF kind = "ws" THEN GUpgrade ELSE GRsHs
      ELSE IF sphase = "up" THEN GHello
-     ELSE \E k \in W(<<"pub", "pub", "big">>) : IF k = "big" /\ kind = "rs" /\ recvLimit < 100000 THEN GRsBig ELSE GPub
+     ELSE \E k \in W(<<"pub", "sget", "sget", "big">>) : IF k = "big" /\ kind = "rs" /\ recvLimit < 100000 THEN GRsBig ELSE IF k = "sget" THEN GSGet ELSE GPub
 
 GenInit == /\ h = <<>>
            /\ \E k \in {"ws", "rs"}, lim \in {0, 512, 600, 4096}, org \in {"none", "list", "star"} :
